@@ -10,7 +10,7 @@ ID = "C21"
 LEVEL = "model_checking"
 ENGINE = "G"
 # layers (host nodes, exactly?, script depth); the layers of a tier are disjoint in the host program
-BOUNDS = {"quick": [(4, False, 4)], "thorough": [(4, False, 6), (5, True, 4)]}
+BOUNDS = {"quick": [(3, False, 4), (4, True, 3)], "thorough": [(4, False, 6), (5, True, 4)]}
 HOST_LEAVES = (("Y",), ("Raise", 2), ("Reraise",), ("Ret", 7))
 HEADS = (None, "m", "hm", "h", "clone", "raise0", "h-raise", "hm-log")
 TAILS = (None, "t", "tt", "raise0", "t-raise")
@@ -20,7 +20,7 @@ RULE = (
     "G: host programs of the grammar {Y fresh Msg, YF, Seq, Try(except Exception/else/finally), Raise, Reraise, Return} with <= N nodes "
     "x processors keyed on one host message tag (each yield site, or every site) returning head in {None, [m], "
     "[h,m], [h] replacement, [fresh copy of m], raises at once, [h] then raises, [h,m] logging its responses} and tail in {None, [t], "
-    "[t1,t2], raises at once, [t] then raises} x every adaptive driver script of depth <= D (quick: N<=4,D=4; thorough: N<=4,D=6 plus N=5,D=4) over {send(None), "
+    "[t1,t2], raises at once, [t] then raises} x every adaptive driver script of depth <= D (quick: N<=3,D=4 plus N=4,D=3; thorough: N<=4,D=6 plus N=5,D=4) over {send(None), "
     "send(1), throw(E1), throw(RequestStop)}; oracle: a reference interpreter of the stated contract (host receives the response to "
     "head's last message; tail runs right after head, responses swallowed; an exception while head/tail run reaches the host at its "
     "original yield; the processor is called on host messages only) - compared on the driver trace + host/head logs (rule trace) and "
@@ -224,11 +224,8 @@ def _check(t, prog, target, hk, tk, depth):
             reached = any(c == target or (target == "*") for c in oref.aux.get("proc", ()))
             t.case((prog, target, hk, tk, s), oref.key(), inserted and reached, f"{oref.kind()}", steps=2 * len(s), evaluations=2)
             vs = _judge(prog, target, hk, tk, s, oref, oimp)
-            if vs:
-                # every violation is re-executed (after a full collection) before it is reported
-                import gc
-
-                gc.collect()
+            if any(v[0] == "trace" for v in vs):
+                # every trace violation is re-executed before it is reported (the call-log rule is deterministic by construction)
                 again = {v[1] for v in _judge(prog, target, hk, tk, s, G.run_script(fa, s), G.run_script(fb, s))}
                 if {v[1] for v in vs} != again:
                     t.extra["unconfirmed_mismatches"] = t.extra.get("unconfirmed_mismatches", 0) + 1
